@@ -219,9 +219,13 @@ class WebSocketApp:
         self.last_ping_tm = self.last_pong_tm = float(0)
 
     def _send_ping(self) -> None:
-        if self.stop_ping.wait(self.ping_interval) or self.keep_running is False:
+        # this thread's own stop event: a thread that outlived the join()
+        # in _stop_ping_thread() (blocked in a write) must not pick up the
+        # event of the next connection's thread and carry on beside it
+        stop_ping = self.stop_ping
+        if stop_ping.wait(self.ping_interval) or self.keep_running is False:
             return
-        while not self.stop_ping.wait(self.ping_interval) and self.keep_running is True:
+        while not stop_ping.wait(self.ping_interval) and self.keep_running is True:
             if self.sock:
                 # Restart the pong clock only if the previous ping was
                 # answered: an unanswered ping must stay the reference for
